@@ -12,6 +12,24 @@ Rt(n, d) == [t |-> "rat", n |-> n, d |-> d]
 \* a decimal literal: the spec value is the correctly rounded binary32 of digits * 10^k
 Dec(neg, digits, k) == LET r == DecimalRat(MagOfNat(digits), k) IN RoundNE(IF neg THEN 1 ELSE 0, r[1], r[2])
 G(src, val) == [src |-> src, val |-> val]
+F(s, e, m) == MkReal(s, e, m)
+\* decimal literals of the grid with their binary32 fields; LawDecimals re-derives the fields from the digits
+Decimals == <<<<"0.5", FALSE, 5, -1, F(0, 126, 0)>>,
+  <<"-0.5", TRUE, 5, -1, F(1, 126, 0)>>,
+  <<"1.5", FALSE, 15, -1, F(0, 127, 4194304)>>,
+  <<"0.1", FALSE, 1, -1, F(0, 123, 5033165)>>,
+  <<"0.25", FALSE, 25, -2, F(0, 125, 0)>>,
+  <<"2.5", FALSE, 25, -1, F(0, 128, 2097152)>>,
+  <<"-2.5", TRUE, 25, -1, F(1, 128, 2097152)>>,
+  <<"100.0", FALSE, 100, 0, F(0, 133, 4718592)>>,
+  <<"1e10", FALSE, 1, 10, F(0, 160, 1377017)>>,
+  <<"-1e10", TRUE, 1, 10, F(1, 160, 1377017)>>,
+  <<"16777216.0", FALSE, 16777216, 0, F(0, 151, 0)>>,
+  <<"16777218.0", FALSE, 16777218, 0, F(0, 151, 1)>>,
+  <<"3e38", FALSE, 3, 38, F(0, 254, 6402534)>>,
+  <<"1e-40", FALSE, 1, -40, F(0, 0, 71362)>>,
+  <<"1e-45", FALSE, 1, -45, F(0, 0, 1)>>,
+  <<"0.3333333", FALSE, 3333333, -7, F(0, 125, 2796202)>>>>
 
 Grid == <<
   \* integers: small, boundary
@@ -29,54 +47,59 @@ Grid == <<
   G("(* 2/3 3/2)", I(1)), G("(- 1/2 1/2)", I(0)), G("(/ 6 3)", I(2)), G("(/ 0 5)", I(0)), G("(* 1/2 2)", I(1)),
   G("(- 7)", I(-7)), G("(/ -7 2)", Rt(-7, 2)),
   \* reals
-  G("0.0", PosZero), G("-0.0", NegZero), G("0.5", Dec(FALSE, 5, -1)), G("-0.5", Dec(TRUE, 5, -1)), G("1.5", Dec(FALSE, 15, -1)),
-  G("0.1", Dec(FALSE, 1, -1)), G("0.25", Dec(FALSE, 25, -2)), G("2.5", Dec(FALSE, 25, -1)), G("-2.5", Dec(TRUE, 25, -1)),
-  G("100.0", Dec(FALSE, 100, 0)), G("1e10", Dec(FALSE, 1, 10)), G("-1e10", Dec(TRUE, 1, 10)),
-  G("16777216.0", Dec(FALSE, 16777216, 0)), G("16777218.0", Dec(FALSE, 16777218, 0)), G("3e38", Dec(FALSE, 3, 38)),
-  G("1e-40", Dec(FALSE, 1, -40)), G("1e-45", Dec(FALSE, 1, -45)), G("0.3333333", Dec(FALSE, 3333333, -7)) >>
+  G("0.0", PosZero), G("-0.0", NegZero), G("0.5", F(0, 126, 0)), G("-0.5", F(1, 126, 0)), G("1.5", F(0, 127, 4194304)),
+  G("0.1", F(0, 123, 5033165)), G("0.25", F(0, 125, 0)), G("2.5", F(0, 128, 2097152)), G("-2.5", F(1, 128, 2097152)),
+  G("100.0", F(0, 133, 4718592)), G("1e10", F(0, 160, 1377017)), G("-1e10", F(1, 160, 1377017)),
+  G("16777216.0", F(0, 151, 0)), G("16777218.0", F(0, 151, 1)), G("3e38", F(0, 254, 6402534)),
+  G("1e-40", F(0, 0, 71362)), G("1e-45", F(0, 0, 1)), G("0.3333333", F(0, 125, 2796202)) >>
 
 N == Len(Grid)
 Val(i) == Grid[i].val
 Exacts == {i \in 1..N : IsExactV(Val(i))}
 Reals == {i \in 1..N : IsRealV(Val(i))}
 
-\* ---- laws of the oracle (theorems of the specification on the grid)
-QV(i) == QOf(Val(i))
+\* ---- laws of the oracle (theorems of the specification on the grid); one TLC state per pair (i, j)
+GridP == [i \in 1..N |-> POfV(Val(i))]          \* evaluated once
+VARIABLES i, j, phase
+QV(x) == GridP[x].q
 LawField ==         \* exact arithmetic is a field on the grid
-  \A i, j \in Exacts :
+  (i \in Exacts /\ j \in Exacts) =>
     /\ QEq(QAdd(QV(i), QV(j)), QAdd(QV(j), QV(i)))
     /\ QEq(QSub(QAdd(QV(i), QV(j)), QV(j)), QV(i))
     /\ QEq(QMul(QV(i), QV(j)), QMul(QV(j), QV(i)))
     /\ (~QIsZero(QV(j)) => QEq(QMul(QDiv(QV(i), QV(j)), QV(j)), QV(i)))
-LawFloor ==         \* floor(x) <= x < floor(x) + 1; n = d q + r with 0 <= r < |d| having the sign of d
-  \A i \in Exacts :
+LawFloor ==         \* floor(x) <= x < floor(x) + 1, ceiling likewise
+  (i \in Exacts /\ j = 1) =>
     LET f == QInt(QFloor(QV(i))) c == QInt(QCeiling(QV(i))) IN
       /\ QCmp(f, QV(i)) <= 0 /\ QCmp(QV(i), QAdd(f, QInt(BigOfInt(1)))) < 0
       /\ QCmp(c, QV(i)) >= 0 /\ QCmp(QSub(c, QInt(BigOfInt(1))), QV(i)) < 0
-LawOrder ==         \* the order is total, antisymmetric and transitive; = is its equivalence
-  \A i, j \in 1..N :
-    LET c == PCmp(POfV(Val(i)), POfV(Val(j))) IN
-      /\ c \in {-1, 0, 1}
-      /\ PCmp(POfV(Val(j)), POfV(Val(i))) = -c
+LawFloorDiv ==      \* n = d q + r with q = floor(n / d)
+  (i \in Exacts /\ j \in Exacts /\ ~QIsZero(QV(j))) =>
+    LET q == QInt(QFloor(QDiv(QV(i), QV(j))))
+        r == QSub(QV(i), QMul(QV(j), q))
+    IN QEq(QAdd(QMul(QV(j), q), r), QV(i)) /\ QCmp(QAbs(r), QAbs(QV(j))) < 0
+LawOrder ==         \* the order is total and antisymmetric
+  LET c == PCmp(GridP[i], GridP[j]) IN c \in {-1, 0, 1} /\ PCmp(GridP[j], GridP[i]) = -c
 LawOrderTrans ==
-  \A i, j, k \in Exacts :
-    (QCmp(QV(i), QV(j)) <= 0 /\ QCmp(QV(j), QV(k)) <= 0) => QCmp(QV(i), QV(k)) <= 0
+  (i \in Exacts /\ j \in Exacts) =>
+    \A k \in Exacts : (QCmp(QV(i), QV(j)) <= 0 /\ QCmp(QV(j), QV(k)) <= 0) => QCmp(QV(i), QV(k)) <= 0
 LawContagion ==     \* an operation with an inexact operand is inexact; with exact operands exact
-  \A i \in 1..N : \A j \in 1..N :
-    LET p == Arith("+", <<Val(i), Val(j)>>) IN p.x = (IsExactV(Val(i)) /\ IsExactV(Val(j)))
-LawRealExact ==     \* converting a small dyadic exact number is exact: 1/2 -> 0.5 etc.
+  LET p == PBin("+", GridP[i], GridP[j]) IN p.x = (IsExactV(Val(i)) /\ IsExactV(Val(j)))
+LawRealExact ==
+  (i = 1 /\ j = 1) =>
   /\ RealOfV(Rt(1, 2)) = Dec(FALSE, 5, -1)
   /\ RealOfV(I(16777217)) = Dec(FALSE, 16777216, 0)          \* ties to even
   /\ RAdd(Dec(FALSE, 1, -1), Dec(FALSE, 2, -1)) = MkReal(0, 125, 1677722)      \* 0.1 + 0.2 = 0.3 (0x3e99999a)
+LawDecimals == (j = 1 /\ i <= Len(Decimals)) => Dec(Decimals[i][2], Decimals[i][3], Decimals[i][4]) = Decimals[i][5]
+Laws == phase = 1 => (LawDecimals /\ LawField /\ LawFloor /\ LawFloorDiv /\ LawOrder /\ LawOrderTrans /\ LawContagion /\ LawRealExact)
 
 UnaryOps == <<"abs", "floor", "ceiling", "-", "/">>
 BinaryOps == <<"+", "-", "*", "/", "=", "<", ">", "<=", ">=", "max", "min", "eqv?", "floor-quotient", "floor-remainder">>
 TernaryOps == <<"+", "-", "*", "/", "=", "<", ">", "<=", ">=", "max", "min">>
 
-VARIABLE done
-Laws == done => (LawField /\ LawFloor /\ LawOrder /\ LawOrderTrans /\ LawContagion /\ LawRealExact)
-Init == done = FALSE
-Next == ~done /\ done' = TRUE
-Emit == done => PrintT(<<"VEC", ToJson([grid |-> [i \in 1..N |-> [src |-> Grid[i].src, val |-> Grid[i].val]],
-                                        unary |-> UnaryOps, binary |-> BinaryOps, ternary |-> TernaryOps])>>)
+Init == i \in 1..N /\ j \in 1..N /\ phase = 0
+Next == phase = 0 /\ phase' = 1 /\ UNCHANGED <<i, j>>
+Emit == (phase = 1 /\ i = 1 /\ j = 1) =>
+          PrintT(<<"VEC", ToJson([grid |-> [x \in 1..N |-> [src |-> Grid[x].src, val |-> Grid[x].val]],
+                                  unary |-> UnaryOps, binary |-> BinaryOps, ternary |-> TernaryOps])>>)
 =============================================================================
